@@ -6,6 +6,19 @@ import sys
 import time
 
 
+def tree_hash(repo):
+    """Same digest as ./check computes (all ghedesigner/*.py and schema files, in shell glob order)."""
+    import glob
+    import hashlib
+
+    h = hashlib.sha256()
+    for pat in ("ghedesigner/*.py", "ghedesigner/schemas/*.json"):
+        for f in sorted(glob.glob(os.path.join(str(repo), pat))):
+            with open(f, "rb") as fh:
+                h.update(fh.read())
+    return h.hexdigest()[:16]
+
+
 def main():
     args = sys.argv[1:]
     if not args:
@@ -37,11 +50,17 @@ def main():
     except ModuleNotFoundError as e:
         print(f"INCONCLUSIVE property={prop} reason=no-such-check ({e})")
         return 2
+    h0 = tree_hash(REPO)
     if replay:
         witness = json.loads(open(replay).read())
         report = mod.replay(witness)
     else:
         report = mod.check(tier, seed)
+    if tree_hash(REPO) != h0:
+        # worker and child processes import the repository when they start: a tree edited while the check runs is observed as two
+        # different programs (this produced one spurious C13 alarm during development, notes/findings_log.md) - nothing can be concluded
+        print(f"INCONCLUSIVE property={prop} reason=repository-source-changed-while-the-check-was-running")
+        return 2
     return finish(report, tier, seed, t0, level=getattr(mod, "LEVEL", "exploration"))
 
 
